@@ -44,11 +44,11 @@ Print Assumptions C06_only_just_once_templates_bind.
 (* across a continuation the persistent names keep denoting rows with the same table, id
    and child index *)
 Theorem C06_survive_continuation :
-  forall e s c,
-    save s = Ok c ->
-    p_nicks (load e c) = p_nicks s /\ p_tables (load e c) = p_tables s /\
+  forall e s c s0,
+    save s = Ok c -> load e c = Ok s0 ->
+    p_nicks s0 = p_nicks s /\ p_tables s0 = p_tables s /\
     forall h cl, nth_error (heap s) h = Some cl ->
-      exists c', nth_error (heap (load e c)) h = Some c' /\
+      exists c', nth_error (heap s0) h = Some c' /\
                  c_table c' = c_table cl /\ c_id c' = c_id cl /\ c_index c' = c_index cl.
 Proof. exact singletons_survive_continuation. Qed.
 Print Assumptions C06_survive_continuation.
@@ -60,7 +60,7 @@ Example C06_ex :
   run_history (mkRecipe 3 []
     [SObj (Tpl "J" (Some "jj") (Some (FLitInt 2)) true [("n", FFormula [PExpr (EVar "child_index")])] []);
      SObj (Tpl "A" None None false [("a", FRef "jj"); ("b", FRef "J"); ("c", FFormula [PExpr (EAttr (EVar "jj") "n")])] []);
-     SObj (Tpl "J" None None false [("n", FLitInt 100)] [])]) [1; 2]%nat None
+     SObj (Tpl "J" None None false [("n", FLitInt 100)] [])] []) [1; 2]%nat None
   = Ok [[("J", [("id", OInt 1); ("n", OInt 0)]); ("J", [("id", OInt 2); ("n", OInt 1)]);
          ("A", [("id", OInt 1); ("a", ORef "J" 2); ("b", ORef "J" 2); ("c", OInt 1)]);
          ("J", [("id", OInt 3); ("n", OInt 100)])];
